@@ -140,6 +140,7 @@ let model_line out w line =
   if Array.length t.v > 0 then begin
     out ("> " ^ line);
     match str t with
+    | s when s.[0] = '#' -> ()
     | "CASE" -> Hashtbl.reset w.terms; Hashtbl.reset w.canvases; Hashtbl.reset w.screens; Hashtbl.reset w.parsers
     | "END" -> ()
     | "T" ->
@@ -366,6 +367,44 @@ let oracle_mode () =
   flush_case ();
   Printf.printf "ORACLE-DONE failures=%d\n" !nfail
 
+(* ---- expand mode: items -> bytes + expected tokens (Proto.v) -------------------- *)
+let opt_n i = if i < 0 then None else Some (n_of_int i)
+let intro_of = function 0 -> I7 false | 1 -> I7 true | _ -> I8
+let rec parse_items t acc =
+  if t.i >= Array.length t.v then List.rev acc
+  else begin
+    ignore (str t);  (* "IT" *)
+    let it = match str t with
+      | "char" -> IChar (n_of_int (num t))
+      | "enter" -> IEnter (match num t with 0 -> CrLf | 1 -> CrNul | 2 -> LfCr | 3 -> BareCr | _ -> BareLf)
+      | "csikey" -> let i = num t in let f = num t in let r = num t in let m = num t in
+          ICsiKey (intro_of i, n_of_int f, opt_n r, opt_n m)
+      | "keypad" -> let i = num t in let n = num t in let m = num t in IKeypad (intro_of i, n_of_int n, opt_n m)
+      | "ss3" -> let i = num t in let f = num t in ISs3 (intro_of i, n_of_int f)
+      | "other" -> let i = num t in let mk = num t in let f = num t in let k = num t in
+          let ps = List.init k (fun _ -> n_of_int (num t)) in
+          ICsiOther (intro_of i, (if mk = 0 then None else Some (n_of_int mk)), ps, n_of_int f)
+      | "mouse" -> let i = num t in let b = num t in let x = num t in let y = num t in
+          IMouse (intro_of i, n_of_int b, n_of_int x, n_of_int y)
+      | s -> failwith ("unknown item " ^ s) in
+    parse_items t (it :: acc)
+  end
+
+let expand_mode () =
+  (try while true do
+    let line = input_line stdin in
+    let t = { v = split line; i = 0 } in
+    if Array.length t.v >= 3 && t.v.(0) = "T" && t.v.(2) = "items" then begin
+      let id = t.v.(1) in
+      t.i <- 3;
+      let its = parse_items t [] in
+      let ok = List.for_all wf_item its && adjacency_ok its in
+      Printf.printf "# ITEMS %d wf=%d\n" (List.length its) (if ok then 1 else 0);
+      List.iter (fun it -> Printf.printf "# EXPECT %s\n" (pr_token (tok it))) its;
+      Printf.printf "T %s recv %s\n" id (hex (enc_all its))
+    end else print_endline line
+  done with End_of_file -> ())
+
 let () =
   let mode = if Array.length Sys.argv > 1 then Sys.argv.(1) else "model" in
   match mode with
@@ -374,4 +413,5 @@ let () =
       let out s = print_string s; print_char '\n' in
       (try while true do model_line out w (input_line stdin) done with End_of_file -> ())
   | "oracle" -> oracle_mode ()
+  | "expand" -> expand_mode ()
   | _ -> prerr_endline "unknown mode"; exit 2
